@@ -7,7 +7,7 @@
 From RX Require Import Base.Prelude Base.InvList Tables.Consts Model.Case Model.Op Model.Engine Model.Matcher
      Model.Compiler Model.Api Spec.Syntax Spec.Sem Spec.Parse Proofs.EngineFacts Proofs.MatcherFacts
      Proofs.EngineCorollaries Proofs.LeafFacts Proofs.SmallFacts Proofs.LowerFacts Proofs.QuantLaws
-     Proofs.PlainPattern Proofs.PlainSpec Proofs.GroupGrammar.
+     Proofs.PlainPattern Proofs.PlainSpec Proofs.GroupGrammar Proofs.NullableFacts Proofs.ScanFacts Proofs.FrameFacts Proofs.FragmentApi.
 
 (* ---------------------------------------------------------------- one-step unfoldings *)
 Lemma p_more_S_bar f xpath st t acc : p_more (S f) xpath st (124%N :: t) acc
@@ -281,7 +281,7 @@ Proof.
   assert (Facts : forall inp, simple inp (f_case fl) (f_multi fl) false (parens st') top
                    /\ (forall p q, p <= length inp -> (In q (Rop inp (f_case fl) (f_multi fl) top p) <-> In q (Da inp (f_case fl) a p)))).
   { intros inp. destruct (parse_expr_grammar pat xpath (f_case fl) (f_single fl) inp (f_multi fl) (parens st') a Hok eq_refl)
-      as (top' & st'' & Eparse' & _ & _ & G & S0).
+      as (top' & st'' & Eparse' & _ & _ & G & S0 & _).
     rewrite Eparse in Eparse'. injection Eparse' as <- <-. split; [exact G|exact S0]. }
   (* the nullable probe *)
   pose proof (fragment_no_panic_no_out prog [] (proj1 (Facts [])) Hun 0 st0 (le_n 0) eq_refl) as NP0.
@@ -330,4 +330,46 @@ Proof.
   - destruct (parse_expr_grammar (show_a a) (f_xpath fl) (f_case fl) (f_single fl) [] (f_multi fl) 0 a Hok eq_refl)
       as (top & st' & Eparse & Hi & Hb & _ & _).
     unfold compile. rewrite Hq, Hx, Eparse. cbn [rbind]. rewrite Hi, Nat.eqb_refl. cbn [negb]. eauto.
+Qed.
+
+(* tokenize on the grammar, from the strings: if Regex::new does not flag the regex as matching the
+   empty string, the token iterator finishes within len+3 steps with at most len+1 tokens - no
+   hypothesis about any stage (parser, matcher interface, scan loop) is left *)
+Theorem grammar_tokenize_end_to_end xpath a fls input :
+  ok_a xpath a = true -> existsb (N.eqb 59) fls = false ->
+  match spec_flags xpath fls with
+  | Valid sf =>
+      s_q sf = false -> s_x sf = false ->
+      exists re, regex_new true xpath (show_a a) fls = Ok re
+        /\ (r_nullable re = false ->
+            exists l, tok_all (matches (r_prog re) input) input (S (S (S (length input)))) {| t_prev := Some 0; t_ms := st0 |} = Ok l
+                      /\ length l <= length input + 1)
+  | _ => True
+  end.
+Proof.
+  intros Hok Hsep. pose proof (parse_flags_spec xpath fls Hsep) as PF. unfold regex_new.
+  destruct (parse_flags xpath fls) as [fl|e| |] eqn:Efl; destruct (spec_flags xpath fls) as [sf| |] eqn:Esf;
+    try contradiction; try exact I; try (destruct e; contradiction).
+  destruct PF as [(A1 & A2 & A3 & A4 & A5) Hx]. intros Hsq Hsx. cbn [rbind].
+  set (pat := show_a a).
+  destruct (parse_expr_grammar pat xpath (f_case fl) (f_single fl) [] (f_multi fl) 0 a Hok eq_refl)
+    as (top & st' & Eparse & Hi & Hb & _ & _ & Hfr).
+  assert (Ecomp : compile true fl pat
+                  = Ok (mk_program_unopt pat top (parens st') (f_case fl) (f_multi fl) false false)).
+  { unfold compile. replace (f_literal fl) with false by congruence. replace (f_ws fl) with false by congruence.
+    rewrite Hx, Eparse. cbn [rbind]. rewrite Hi, Nat.eqb_refl, Hb. reflexivity. }
+  rewrite Ecomp. cbn [rbind].
+  set (prog := mk_program_unopt pat top (parens st') (f_case fl) (f_multi fl) false false).
+  assert (Hun : p_hasbol prog = false /\ p_minlen prog = 0%N /\ p_prefix prog = None /\ p_icc prog = None /\ p_pre prog = [])
+    by (repeat split; reflexivity).
+  assert (Facts : forall inp, simple inp (f_case fl) (f_multi fl) false (parens st') top).
+  { intros inp. destruct (parse_expr_grammar pat xpath (f_case fl) (f_single fl) inp (f_multi fl) (parens st') a Hok eq_refl)
+      as (top' & st'' & Eparse' & _ & _ & G & _).
+    rewrite Eparse in Eparse'. injection Eparse' as <- <-. exact G. }
+  pose proof (fragment_no_panic_no_out prog [] (Facts []) Hun 0 st0 (le_n 0) eq_refl) as NP0.
+  destruct (matches prog [] 0 st0) as [s0|s0| |k0] eqn:E0; try contradiction; cbn [mres_bool rbind];
+    (eexists; split; [reflexivity|]); cbn [r_nullable r_prog]; intros Hn; [discriminate|].
+  apply (fragment_token_bound prog input (Facts input) Hfr Hun (Facts [])).
+  - intros s' Es. rewrite E0 in Es. discriminate.
+  - reflexivity.
 Qed.
